@@ -170,7 +170,7 @@ pub fn exec(op: &str, a: &[Vec<u8>]) -> Option<Resp> {
         }
         "rs.mul" => {
             let s = need!(scalar_int(&a[0]));
-            rep(&need!(rp(&a[1])).mul(&s), 5)
+            rep(&need!(rp(&a[1])).mul(&s), 10)
         }
         "rs.mul_base" => rep(&Aff::basepoint().mul(&need!(scalar_int(&a[0]))), 1),
         "rs.table" => {
